@@ -73,7 +73,13 @@ def main(tier):
         jobs, meta = [], []
         for i, r in enumerate(recs):
             pa = rr.opt_flags(r["o"]) + ["-e", rr.render(r["u"])]
-            for maxc in (0, 1, 2):
+            # -U on a pattern that cannot match the terminator changes nothing (every mode must still count LINES);
+            # encoded as max-count 10 (no limit, -U given)
+            # (restricted to patterns for which rg itself stays line-oriented under -U: no look-around - also none added by
+            # -w / -x -, no empty match, no class that holds the terminator; otherwise -U legitimately reports blocks)
+            safe_u = ("\\W" not in rr.render(r["u"]) and "[^" not in rr.render(r["u"]) and not r["o"]["crlf"] and not r["o"]["word"]
+                      and not r["o"]["line"] and not r.get("nullable") and "look" not in json.dumps(r["u"]))
+            for maxc in (0, 1, 2) + ((10,) if safe_u and (i + vlib.seed()) % 2 == 0 else ()):
                 for term_last in ((True, False, "crlf_content") if maxc == 0 else (True,)):
                     if term_last == "crlf_content" and not r.get("crlines"):
                         continue
@@ -81,7 +87,7 @@ def main(tier):
                         if r["o"]["inv"] and name in ("countm", "only"):
                             continue
                         b2 = ["--no-config", "--color", "never", "-j4"] if name == "statsj" else base
-                        a = b2 + flags + (["-m", str(maxc)] if maxc else []) + pa + ["f0", "f1", "f2"]
+                        a = b2 + flags + (["-U"] if maxc == 10 else ["-m", str(maxc)] if maxc else []) + pa + ["f0", "f1", "f2"]
                         jobs.append({"args": a, "cwd": dirs[term_last]})
                         meta.append((i, maxc, term_last, name))
         outs = rgrun.run_many(jobs)
@@ -89,7 +95,7 @@ def main(tier):
         observed = {}       # (scenario, max-count, directory) -> mode -> what that mode reported about the number of matches
         for (i, maxc, term_last, name), (rc, so, se), j in zip(meta, outs, jobs):
             r = recs[i]
-            exp = per_file(r, lines, maxc, "crlines" if term_last == "crlf_content" else "lines")
+            exp = per_file(r, lines, 0 if maxc == 10 else maxc, "crlines" if term_last == "crlf_content" else "lines")
             if name == "statsj":
                 name = "stats"
             exact = all(v["exact"] for v in exp.values())
@@ -209,7 +215,7 @@ def main(tier):
                 if term_last is False:
                     # mechanism: which modes are short by exactly the empty match at the very end of each file's unterminated
                     # last line (the known defect of the printers' match iteration), the others being right
-                    exp = per_file(r, lines, maxc, "lines")
+                    exp = per_file(r, lines, 0 if maxc == 10 else maxc, "lines")
                     names = ["f%d" % x for x in range(NF)]
                     deficit = {}
                     for k, n in enumerate(names):
